@@ -89,7 +89,11 @@ def line_view(raw, term):
         oi, i, p1 = extract_uint(raw, 0, bits)
         if not oi: return None, None, None
         oj, j, p2 = extract_uint(raw, p1, bits)
-        if not oj: return i, None, None
+        if not oj:
+            # the extraction is not even attempted when the stream is at its end (sentry fails): the target keeps its
+            # previous -- here uninitialised -- value.  Outside the model: reported as "i unknown".
+            if p1 >= len(raw) or skipws(raw, p1) >= len(raw): return None, None, None
+            return i, None, None
         ov, v, p3 = extract_double(raw, p2)
         return i, j, (v if ov else None)
     i, j, v = triple(64)
